@@ -54,6 +54,24 @@ Theorem C18_by_group_ci_shape :
 Proof. exact by_group_ci_shape. Qed.
 Print Assumptions C18_by_group_ci_shape.
 
+(* every key of by_group_ci's index is a key of the point estimate's by_group index
+   (with C18_by_group_ci_shape: the point estimate's index restricted to what the resamples show) *)
+Theorem C18_by_group_index_in_point :
+  forall ms ncf nsf rows idx k, valid_resample (length rows) idx ->
+  In k (map fst (d_by_group (create ms ncf nsf (resample rows idx)))) ->
+  In k (map fst (d_by_group (point ms ncf nsf rows))).
+Proof. exact by_group_index_in_point. Qed.
+Print Assumptions C18_by_group_index_in_point.
+
+(* _align_sample_indices (Bootstrap.align): every re-indexed frame has the common index and, at a
+   key of that index, the row that the quantile computation (aligned_cell) uses *)
+Theorem C18_align_lookup :
+  forall ncols fs f k, In f fs -> In k (union_index fs) ->
+  exists f', In f' (align ncols fs) /\ lookup_row ncols k f' = lookup_row ncols k f /\
+             map fst f' = union_index fs.
+Proof. exact align_lookup. Qed.
+Print Assumptions C18_align_lookup.
+
 (* entries are element-wise non-decreasing in the quantile: same index, NaN cells stay NaN,
    finite cells ordered (per-resample cells finite or NaN) *)
 Theorem C18_ci_monotone :
